@@ -41,6 +41,8 @@ def units(tier, seed):
         us.append({"name": f"repeated/{fam}", "kind": "repeated", "fam": fam, "n_sub": b["n_sub"], "cost": 4})
     us.append({"name": "forced_rollout", "kind": "forced", "n_max": min(b["n_max"], 6), "cost": 3})
     us.append({"name": "ic_set", "kind": "icset", "cost": 2})
+    for fam in (WRAP_INNER[:4] if tier == "quick" else WRAP_INNER):
+        us.append({"name": f"wrappers/{fam}", "kind": "wrappers", "fam": fam, "depth": 2 if tier == "quick" else 3, "cost": 6})
     return us
 
 
@@ -434,6 +436,102 @@ def unit_forced(u, rec):
         rec.sample({"op": "rollout(ForcedStepper) and rollout(ForcedStepper.step_fourier)", "inner": fam, "n_max": u["n_max"]})
 
 
+# --------------------------------------------------------------------------- wrappers around wrappers (BFS over wrapper histories)
+
+WRAP_INNER = ["burgers1d", "wave1d", "kdv1d_even", "nsvort2d", "diffusion2d_even", "advection1d_odd"]
+
+
+def unit_wrappers(u, rec):
+    """
+    Explicit-state BFS over histories of wrapper constructions around one real inner stepper.  Alphabet (simplest first): R1, R2, R3, R0 =
+    RepeatedStepper(current, n) and F = ForcedStepper(current) (terminal: a forced stepper takes two arguments and cannot be repeated).  The model
+    state is (m, forced) with m the total number of inner applications; it is the BFS key, so R2.R3 and R3.R2 merge (diamond check on the real
+    outputs).  Invariant in every state: every entry point of the real wrapped object equals the naive loop of m inner calls (forced: applied to
+    u + dt_eff f with dt_eff = m dt), and the advertised dt is m dt.
+    """
+    import jax.numpy as jnp
+
+    import exponax as ex
+
+    from ..core import bfs
+
+    fam = u["fam"]
+    inner = make_inner(fam, 2)
+    D, N, C = inner.num_spatial_dims, inner.num_points, inner.num_channels
+    states = nyquist_free_states(D, N, C, u["seed"], count=2)[1:]
+    if fam in EVEN_ORDER:
+        n_ = C * N**D
+        states = states + [0.3 * (np.mod(np.arange(n_) * 7 + (np.arange(n_) // 3) * 5, 3) - 1.0).reshape((C,) + (N,) * D)]
+    forcing = nyquist_free_states(D, N, C, u["seed"] + 29, count=1)[0]
+    m_cap = 12 if fam in ("nsvort2d", "diffusion2d_even") else 27
+    loops = {}
+
+    def naive(si, m, start):
+        """m-fold application of the inner stepper's __call__ to `start` (memoised on (si, m) for the unforced chains)"""
+        cur = jnp.asarray(start)
+        for _ in range(m):
+            cur = inner(cur)
+            rec.count(states=1, transitions=1)
+        return np.asarray(cur)
+
+    def outputs(obj, forced):
+        outs = []
+        for s in states:
+            sj = jnp.asarray(s)
+            if forced:
+                fj = jnp.asarray(forcing)
+                outs.append((np.asarray(obj(sj, fj)), np.asarray(obj.step(sj, fj)),
+                             np.asarray(ex.ifft(obj.step_fourier(ex.fft(sj, num_spatial_dims=D), ex.fft(fj, num_spatial_dims=D)), num_spatial_dims=D, num_points=N))))
+            else:
+                outs.append((np.asarray(obj(sj)), np.asarray(obj.step(sj)),
+                             np.asarray(ex.ifft(obj.step_fourier(ex.fft(sj, num_spatial_dims=D)), num_spatial_dims=D, num_points=N))))
+        return outs
+
+    def step(op, key, iv, mv):
+        m, forced = mv
+        if forced:
+            return None
+        obj = iv[0]
+        if op == "F":
+            new, nm, nf = ex.ForcedStepper(obj), m, True
+        else:
+            n = int(op[1:])
+            if m * n > m_cap:
+                return None
+            new, nm, nf = ex.RepeatedStepper(obj, n), m * n, False
+        return (nm, nf), (new, outputs(new, nf)), (nm, nf)
+
+    def invariant(key, iv, mv, trace):
+        m, forced = mv
+        obj, outs = iv
+        rec.dim("wrapper_history", "/".join(trace) if trace else "-")
+        if not forced:
+            rec.close(abs(float(obj.dt) - m * float(inner.dt)), 1e-14 * max(m, 1), f"C14/wrappers/attr/dt/{fam}", "advertised dt of the wrapped stepper is not (product of sub-step counts) * dt",
+                      trace=list(trace), got=float(obj.dt), want=m * float(inner.dt))
+        for si, s in enumerate(states):
+            kk = (si, m, forced)
+            if kk not in loops:
+                start = s + m * float(inner.dt) * forcing if forced else s
+                loops[kk] = naive(si, m, start)
+            want = loops[kk]
+            scale = max(1.0, float(np.max(np.abs(want))))
+            for entry, got in zip(("__call__", "step", "step_fourier"), outs[si]):
+                if not rec.check(got.shape == want.shape, f"C14/wrappers/shape/{fam}", "wrapped stepper changes the shape", trace=list(trace), entry=entry):
+                    continue
+                rec.close(float(np.max(np.abs(got - want))), 1e-11 * scale * max(m, 1), f"C14/wrappers/{entry}/{fam}",
+                          "nested wrapper differs from the naive loop of inner applications" + (" on u + dt_eff*f" if forced else ""),
+                          trace=list(trace), m=m, forced=forced, state=si)
+                rec.count(traces=1)
+            rec.outcome_array(outs[si][0])
+
+    def same(a, b):
+        return all(float(np.max(np.abs(x[0] - y[0]))) <= 1e-10 * max(1.0, float(np.max(np.abs(x[0])))) for x, y in zip(a[1], b[1]))
+
+    nstates, maxdepth = bfs(rec, [((1, False), (inner, outputs(inner, False)), (1, False))], ["R1", "R2", "R3", "R0", "F"], step, invariant,
+                            depth=u["depth"], same=same, label=f"C14/wrappers/{fam}")
+    rec.sample({"op": "BFS over wrapper histories {R0,R1,R2,R3,F}", "inner": fam, "depth": u["depth"], "model_states": nstates, "max_depth": maxdepth, "m_cap": m_cap})
+
+
 # --------------------------------------------------------------------------- build_ic_set
 
 
@@ -473,4 +571,4 @@ def unit_icset(u, rec):
 
 
 def run_unit(u, rec):
-    {"rollout": unit_rollout, "windows": unit_windows, "repeated": unit_repeated, "forced": unit_forced, "icset": unit_icset}[u["kind"]](u, rec)
+    {"rollout": unit_rollout, "windows": unit_windows, "repeated": unit_repeated, "forced": unit_forced, "icset": unit_icset, "wrappers": unit_wrappers}[u["kind"]](u, rec)
